@@ -562,6 +562,13 @@ func (w *Worker) concretize(t *Term, tag string) uint64 {
 		return v // the path condition already pins this term
 	}
 	w.st.states++
+	if DebugConc {
+		fn := "?"
+		if w.curFn != nil {
+			fn = w.curFn.String()
+		}
+		debugConcOnce(tag + " in " + fn)
+	}
 	var excl []uint64
 	if w.inPrefix() {
 		d := w.prefix[w.dpos]
@@ -697,4 +704,14 @@ func decString(ds []Decision) string {
 		sb.WriteString(d.String())
 	}
 	return sb.String()
+}
+
+// DebugConc prints each distinct (tag, function) at which a symbolic value is concretised (GOSMT_CONC_TRACE=1).
+var DebugConc bool
+var debugConcSeen sync.Map
+
+func debugConcOnce(k string) {
+	if _, dup := debugConcSeen.LoadOrStore(k, true); !dup {
+		fmt.Fprintln(os.Stderr, "CONCRETISE", k)
+	}
 }
